@@ -88,6 +88,8 @@ type IterObj struct {
 	m   int    // map object (0 for string iteration)
 	s   SliceV // string iterated
 	idx *Term  // next position (64-bit)
+	rev *Term  // non-nil (Bool): iterate the map from the last entry to the first when true (map_order option)
+	n   int    // number of entries when the iteration started (reverse order walks these)
 }
 
 func isPoison(v Val) (Poison, bool) {
@@ -400,7 +402,10 @@ func (e *Engine) merge(c *Term, a, b Val, allowUnion bool) (Val, bool) {
 		if s == nil {
 			return nil, false
 		}
-		return IterObj{m: x.m, s: s.(SliceV), idx: e.b.Ite(c, x.idx, y.idx)}, true
+		if x.rev != y.rev || x.n != y.n {
+			return nil, false
+		}
+		return IterObj{m: x.m, s: s.(SliceV), idx: e.b.Ite(c, x.idx, y.idx), rev: x.rev, n: x.n}, true
 	case nil:
 		if b == nil {
 			return nil, true
